@@ -9,6 +9,7 @@ if [ -d tools/argvdump ]; then
   go build -o .bin/argvdump ./tools/argvdump
 fi
 # warm the cache: plain and race builds of the standard library + glb
-go build -tags verif ./mon/... 2>&1 | tail -5 || true
-go build -race -tags verif -o /dev/null ./mon/ipfilter 2>/dev/null || true
+go build -tags verif -o .bin/ ./mon/... 2>&1 | tail -5 || true
+go build -race -tags verif -o .work/warm.race ./mon/ipfilter 2>/dev/null || true
+rm -f .work/warm.race
 echo setup done
